@@ -8,7 +8,7 @@ import sys
 
 name, wid, prop, detected, how, needs = sys.argv[1:7]
 features = sys.argv[7] if len(sys.argv) > 7 else ""
-src = "/tmp/seed/%s/seed_out" % wid
+src = "/tmp/seed/%s/seed_out" % wid + (("/" + os.environ["SUB"]) if os.environ.get("SUB") else "")
 dst = "/verif/seeded/%s" % name
 os.makedirs(dst, exist_ok=True)
 shutil.copy(os.path.join(src, "patch.diff"), dst)
